@@ -41,6 +41,11 @@ theorem save_ext_ok (t : Tok) : ∀ m db, Ok db → Ext db (save m t db).1 ∧ O
     · have := ih .chain db h
       exact ⟨ext_trans this.1 (insert_ext _ _), insert_ok this.2 _⟩
     · exact ⟨ext_refl db, h⟩
+  | job tag jv r inputs ih =>
+    intro m db h; cases m
+    · have := ih .chain db h
+      exact ⟨ext_trans this.1 (insert_ext _ _), insert_ok this.2 _⟩
+    · exact ⟨ext_refl db, h⟩
   | nil => intro m db h; cases m <;> exact ⟨ext_refl db, h⟩
   | cons hd tl ih1 ih2 =>
     intro m db h; cases m
@@ -82,6 +87,10 @@ theorem load_ext {db db' : DB} (hok : Ok db) (he : Ext db db') (fuel : Nat) :
           | none => simp [hl] at h
           | some x => simp [hl] at h; simp [iB l x hl, h]
         · rename_i l
+          cases hl : loadKv f db l with
+          | none => simp [hl] at h
+          | some x => simp [hl] at h; simp [iC l x hl, h]
+        · rename_i jv l
           cases hl : loadKv f db l with
           | none => simp [hl] at h
           | some x => simp [hl] at h; simp [iC l x hl, h]
@@ -133,6 +142,10 @@ theorem load_fuel_succ (db : DB) (fuel : Nat) :
           | none => simp [hl] at h
           | some x => simp [hl] at h; simp [iB l x hl, h]
         · rename_i l
+          cases hl : loadKv f db l with
+          | none => simp [hl] at h
+          | some x => simp [hl] at h; simp [iC l x hl, h]
+        · rename_i jv l
           cases hl : loadKv f db l with
           | none => simp [hl] at h
           | some x => simp [hl] at h; simp [iC l x hl, h]
@@ -203,6 +216,17 @@ theorem load_save (t : Tok) :
     refine ⟨(save .chain fields db).1.next, f + 1, rfl, ?_⟩
     have hl := (load_ext hs.2 (insert_ext (save .chain fields db).1
       ⟨.obj, tag, .kv ((keysOf fields).zip (save .chain fields db).2), false⟩) f).2.2 _ _ hf
+    simp only [save, load]
+    simp only [DB.insert] at hl ⊢
+    simp [hl]
+  | job tag jv r inputs ih =>
+    refine ⟨?_, by simp [Wf], by simp [Wf]⟩
+    intro hw db hok
+    obtain ⟨f, hf⟩ := ih.2.2 (by simpa [Wf] using hw) db hok
+    have hs := save_ext_ok inputs .chain db hok
+    refine ⟨(save .chain inputs db).1.next, f + 1, rfl, ?_⟩
+    have hl := (load_ext hs.2 (insert_ext (save .chain inputs db).1
+      ⟨.job, tag, .jobv jv ((keysOf inputs).zip (save .chain inputs db).2), r⟩) f).2.2 _ _ hf
     simp only [save, load]
     simp only [DB.insert] at hl ⊢
     simp [hl]
